@@ -143,7 +143,7 @@ func (c *Ctx) ruleRegisterBeforeWrite(rr *RuleRep, sites []*reqSite, opts ...str
 }
 
 func (c *Ctx) structField(typ, field string) *types.Var {
-	n := c.NamedType(typ)
+	n := c.NamedType(ownerOf(typ, field))
 	if n == nil {
 		return nil
 	}
